@@ -65,7 +65,7 @@ R4 random_stager_uri: 2+3 (the returned value is the very term that passed the c
    (specialised per `x64` = True / False, the flag's own two values), 4 (interval set of the admitted `length`), 3
    (repeat count in polynomial normal form), 6 (alphabet folded from the `string` module constants and compared with the
    table).  Lemma: L16.
-R5 staged beacon gate: 2+3 only (path conditions carrying a positive classifier call on the request URI; callee
+R5 staged beacon gate: 2+3 (path conditions carrying a positive classifier call on the request URI; callee
    resolution 1; None / not None of the request 5).
    Stored extraction results (own obligation): 3 (def-use on the path terms: which `self.A` / module-level container is
    assigned, or handed through a mutator call, a term that contains the BeaconConfig.from_* call - through local aliases,
@@ -73,6 +73,17 @@ R5 staged beacon gate: 2+3 only (path conditions carrying a positive classifier 
    what find_staged_beacon() returned in `self.A`), 2 (the returning paths a known request takes without a positive
    classifier test of its URI), information flow: do the path conditions / the returned term read the request URI at
    all.  Lemma: L29.
+   A gate that is not spelled with the classifier calls (own verdict inside the DOM obligation, `_gate_verdict`; before it was
+   undecided): 3 (value helpers - `arch = utils.stager_arch(uri)` ... `if arch is None` - are substituted into the test that
+   reads their result, per returning path of the helper, `_Exec.inline_operand`; names of a helper of another module are
+   resolved in that module), 1 (callee resolution: the request URI's checksum8 becomes the atom $c8), 4 (interval set over
+   [0, 255] of the checksum8 values the path conditions admit: comparisons with constants in normal form), 5+6 (membership in
+   a constant collection; ONE lookup `T.get($c8[, d])` / `T[$c8]` in a constant module-level table that nothing in the package
+   mutates: case analysis over the table's own keys plus "any other value", the test folded per case), 6 (a shape test of the
+   URI: the x64 pattern's parse tree judged by the same two functions as the classifier's own, R3, or the len / startswith /
+   isalnum / isascii predicates).  Necessary condition: admitted checksum8 values within {92}, or {92, 93} when the path
+   establishes the x64 shape.  Violated only when every condition that reads the request is one of these forms (else
+   undecided).  Lemmas: L28, L30.
 R6 NetBIOS: 2+3 (sequence builder located by role: comprehension or one list-filling loop, analysed once), 3+4
    (structural matching of the nibble terms, polynomial normal form of the symbol / decoded-byte terms, affine index
    terms of the decoder under the loop's start/step), 6 (default offsets).  Lemmas: L17-L23.
@@ -143,6 +154,13 @@ Lemmas (each is an identity / inequality over the integers; the one-line reason 
      which the function (or its caller, from the function's result) stores the BeaconConfig an extraction produced -
      every extraction is behind the gate (first R5 obligation), so that was for a response with a stager URI or an
      unknown request - a later response with a known non-stager request takes the path and is handed that BeaconConfig.
+ L30 checksum8 sums the code points of the text without its '/' characters (R3), and a text of four or more characters stays
+     that long when a '/' is appended: checksum8(u + "/") == checksum8(u) for len(u) >= 4.  u + "/" is never '/' + four
+     alphanumerics (six characters for such a u; a trailing '/' otherwise).  So for every checksum8 value that some URI of
+     four or more characters has - by L28 all of 0..255, each by some '/' + four alphanumerics - there is a URI with that
+     value and the x64 shape and another one with that value and without it: a condition on checksum8(uri) alone cannot
+     imply `checksum8(uri) == 93 and shape`, and is_stager_x86 does not accept 93.  Conditions of a path that do not read
+     the request are taken to be independent of its URI.
 """
 
 from __future__ import annotations
@@ -222,6 +240,10 @@ def _fold1(e, env):
             raise _NoEval("starred")
         vals = [_fold1(x, env) for x in e.elts]
         return tuple(vals) if isinstance(e, ast.Tuple) else list(vals) if isinstance(e, ast.List) else set(vals)
+    if isinstance(e, ast.Dict):
+        if any(k is None for k in e.keys):
+            raise _NoEval("dict unpacking")
+        return {_fold1(k, env): _fold1(v, env) for k, v in zip(e.keys, e.values)}
     if isinstance(e, ast.UnaryOp):
         v = _fold1(e.operand, env)
         if isinstance(e.op, ast.Not):
@@ -752,6 +774,40 @@ def _assigned(stmts):
     return out
 
 
+def _ancestors_of(root, node):
+    """The nodes strictly between `root` (inclusive) and `node` (exclusive) on the path down to `node`; [] if absent."""
+    path = []
+
+    def down(n):
+        if n is node:
+            return True
+        for c in ast.iter_child_nodes(n):
+            path.append(n)
+            if down(c):
+                return True
+            path.pop()
+        return False
+
+    return list(path) if down(root) else []
+
+
+def _replace_node(root, node, repl):
+    """A copy of term `root` in which the sub-term `node` (by identity) is replaced by a copy of `repl`."""
+    node._mark = True
+    try:
+        out = copy.deepcopy(root)
+    finally:
+        del node._mark
+
+    class R(ast.NodeTransformer):
+        def visit(self, n):
+            if getattr(n, "_mark", False):
+                return copy.deepcopy(repl)
+            return self.generic_visit(n)
+
+    return R().visit(out)
+
+
 class _Loop:
     def __init__(self, stmt, k):
         self.stmt, self.k = stmt, k
@@ -766,9 +822,10 @@ class _Loop:
 class _Exec:
     MAX = 600
 
-    def __init__(self, fn, preset=None, resolver=None, depth=0):
+    def __init__(self, fn, preset=None, resolver=None, depth=0, home=None):
         self.fn = fn
         self.resolver, self.depth = resolver, depth
+        self.home = home  # an inlined helper: name of the module in whose namespace its global names live
         self.preset = dict(preset or {})
         self.sites = itertools.count(1)
         self.syms = itertools.count(1)
@@ -789,6 +846,8 @@ class _Exec:
             def visit_Name(self, n):
                 if isinstance(n.ctx, ast.Load) and n.id in st.env and not self.shadowed(n.id):
                     return copy.deepcopy(st.env[n.id])
+                if ex.home is not None and isinstance(n.ctx, ast.Load) and n.id not in ex.locals and not self.shadowed(n.id):
+                    n._home = ex.home  # a global name of an inlined helper: resolved in the helper's module (`_home_of`)
                 return n
 
             def visit_Call(self, n):
@@ -863,17 +922,20 @@ class _Exec:
         inl = self.inline_test(t)
         if inl is not None:
             return inl
+        inl = self.inline_operand(t)
+        if inl is not None:
+            return inl
         return [([(t, True)], True), ([(t, False)], False)]
 
-    def inline_test(self, call):
-        """A test that is a call of a small repository helper (`self.resolver(call)` -> (function node, skip-self)):
-        the helper's own returning paths, with its parameters bound to the argument terms, replace the opaque call."""
+    def helper_paths(self, call):
+        """Returning paths of the small repository helper that `call` invokes (`self.resolver(call)` -> (function node,
+        skip-self, home module)), its parameters bound to the argument terms; None when the call is not such a call."""
         if self.resolver is None or not isinstance(call, ast.Call) or self.depth >= 3:
             return None
         r = self.resolver(call)
         if r is None:
             return None
-        fn, skip = r
+        fn, skip, home = r
         a = fn.args
         if a.vararg or a.kwarg or any(isinstance(x, ast.Starred) for x in call.args) or any(k.arg is None for k in call.keywords):
             return None
@@ -893,19 +955,59 @@ class _Exec:
                 if n not in dflt:
                     return None
                 preset[n] = dflt[n]
-        sub = _Exec(fn, preset, self.resolver, self.depth + 1)
+        sub = _Exec(fn, preset, self.resolver, self.depth + 1, home)
         sub.sites, sub.syms = self.sites, self.syms
         try:
             states = sub.run()
         except (_Unsupported, RecursionError):
             return None
-        if sub.loops or not states or any(b.end[0] != "return" or b.end[1] is None for b in states):
+        if sub.loops or not states:
+            return None
+        return states
+
+    def inline_test(self, call):
+        """A test that is a call of a small repository helper: the helper's own returning paths, with its parameters
+        bound to the argument terms, replace the opaque call."""
+        states = self.helper_paths(call)
+        if states is None or any(b.end[0] != "return" or b.end[1] is None for b in states):
             return None
         out = []
         for b in states:
             for c2, o2 in self.split(b.end[1]):
                 out.append((list(b.conds) + c2, o2))
         return out if len(out) <= 32 else None
+
+    def inline_operand(self, t):
+        """A test that *contains* a call of a small repository helper (`h(x) is None`, `h(x) == "a"`, `h(x) in T` - the
+        helper hands back a value, not a verdict): per returning path of the helper, its conditions and the test with the
+        call replaced by the value that path returns (a path that returns nothing: None).  The first such call in
+        evaluation order only; the others are reached by the recursion through `split`."""
+        if self.resolver is None or self.depth >= 3 or isinstance(t, ast.Call) and self.resolver(t) is not None:
+            return None
+        if isinstance(t, ast.Compare):
+            operands = [t.left] + list(t.comparators)
+        elif isinstance(t, ast.Call) and isinstance(t.func, ast.Attribute):
+            operands = [t.func.value] + list(t.args)
+        elif isinstance(t, ast.Call):
+            operands = list(t.args)
+        else:
+            return None
+        for x in operands:
+            for call in ([x] if isinstance(x, ast.Call) else []) + [n for n in ast.walk(x) if isinstance(n, ast.Call) and n is not x]:
+                if any(isinstance(p, (ast.Lambda, ast.GeneratorExp, ast.ListComp, ast.SetComp, ast.DictComp, ast.IfExp, ast.BoolOp)) for p in _ancestors_of(t, call)):
+                    continue  # not evaluated exactly once on every evaluation of the test
+                states = self.helper_paths(call)
+                if states is None:
+                    continue
+                if any(b.end[0] not in ("return", "fall") for b in states):
+                    return None
+                out = []
+                for b in states:
+                    v = b.end[1] if b.end[1] is not None else ast.Constant(value=None)
+                    for c2, o2 in self.split(_replace_node(t, call, v)):
+                        out.append((list(b.conds) + c2, o2))
+                return out if len(out) <= 32 else None
+        return None
 
     def values(self, v, st):
         """(state, value) alternatives of an already substituted value: a top-level conditional expression forks."""
@@ -1140,9 +1242,25 @@ def _paths(fn, preset=None, resolver=None):
     return ex, ex.run()
 
 
+def _home_of(f, e):
+    """Module in whose namespace the (dotted) name `e` of a path term is to be resolved: the analysed function's module,
+    or the module of the inlined helper the name stems from (`_home` tag set by the path executor)."""
+    while isinstance(e, ast.Attribute):
+        e = e.value
+    return getattr(e, "_home", None) or f.module.name
+
+
+def _lookup(ctx, f, e):
+    """Symbol a (dotted) name of a path term of `f` resolves to, or None."""
+    d = dotted(e)
+    return ctx.rs.lookup_dotted(_home_of(f, e), d) if d else None
+
+
 def _helper_resolver(ctx, f, keep):
-    """Resolver for `_Exec.inline_test`: calls of repository functions/methods (resolved from f's module, `self.m(..)`
-    through f's class) other than the ones in `keep`, which the rules want to see as atoms."""
+    """Resolver for `_Exec.inline_test` / `inline_operand`: calls of repository functions/methods (resolved from f's
+    module - a name that stems from an inlined helper of another module: from that module; `self.m(..)` through f's
+    class) other than the ones in `keep`, which the rules want to see as atoms.  -> (function node, skip-self, name of the callee's
+    module)."""
 
     def resolve(call):
         d = dotted(call.func)
@@ -1154,7 +1272,7 @@ def _helper_resolver(ctx, f, keep):
             sym = ctx.rs.lookup_dotted(f.module.name, f"{f.cls}.{d[5:]}")
             skip = True
         elif d.split(".")[0] not in ("self", "cls"):
-            sym = ctx.rs.lookup_dotted(f.module.name, d)
+            sym = ctx.rs.lookup_dotted(_home_of(f, call.func), d)
         if sym is None or sym.kind != "func" or sym.fq in keep or any(sym.fq.startswith(k + ".") for k in keep):
             return None
         m = ctx.repo.modules.get(sym.module)
@@ -1167,7 +1285,7 @@ def _helper_resolver(ctx, f, keep):
             return None
         if sum(1 for _ in ast.walk(g.node)) > 400:
             return None
-        return g.node, skip
+        return g.node, skip, sym.module
 
     return resolve
 
@@ -1296,7 +1414,8 @@ def run(ctx):
         "missing anchor or re.MULTILINE line anchors are violations for backtracking-only patterns (first / last item of the parse tree); a generated stager URI is returned only on the true edge of its "
         "own classifier applied to that very value, for admitted lengths within [3, inf) (x64: {4}), built as '/' + `length` draws from "
         "an alphabet inside [0-9A-Za-z]; the staged beacon extraction is reachable with a known request only on paths with a positive "
-        "stager test of the request URI, and every returning path a known request takes without such a test returns None - in particular not "
+        "stager test of the request URI - or, for a gate spelled without the classifier calls (value helper substituted per returning path, lookup in a constant table by case analysis over its keys, membership / comparison tests), "
+        "on paths whose conditions confine checksum8(request uri) to 92, or to {92, 93} together with the x64 shape test (interval sets over [0, 255]; a checksum-only gate that admits 93 is a violation, L30) - and every returning path a known request takes without such a test returns None - in particular not "
         "object / module state in which the function or its caller stores extraction results (def-use on the path terms; violated when "
         "neither the path conditions nor the returned term read the request URI); the NetBIOS encoder emits (high nibble + offset, low nibble + offset) per byte (structural "
         "nibble forms) and the decoder term over the pair positions (2j, 2j+1) is 16*(x - offset) + (y - offset) in normal form; "
@@ -1308,6 +1427,7 @@ def run(ctx):
         "self-inverse / inverse laws as such (only the structural conditions that imply them, via the lemmas in the module docstring)",
         "odd-length NetBIOS input", "exceptions raised inside int.to_bytes / int.from_bytes themselves and range checks of pack() spelled with bit_length() or other forms than comparisons with a*2**(8*size) + b (undecided)", "minimal-width signed packing (size None, signed=True)",
         "whole-URI coverage of x64 patterns with look-around, conditionals, back references, atomic / possessive constructs, scoped flags or inner anchors, and of pattern objects that are not module-level re.compile constants (undecided)",
+        "a staged-beacon gate whose conditions on the request are neither classifier calls nor comparisons / memberships / one constant-table lookup of checksum8(request uri) and recognised shape tests of the URI (undecided)",
         "extraction results kept in state the rule cannot see being written (other classes / modules, containers reached through calls), or returned on an ungated path whose conditions read the request URI (undecided)",
         "spellings outside the recognised algebraic forms (reported as undecided)",
         "block-wise xor with while-loops, stateful key iterators shared between pieces, strides the algebra cannot relate to len(key), or under path conditions that bound the key length (undecided); a piece helper is assumed to be a function of its arguments (plain module-level function without global / nonlocal)",
@@ -1316,7 +1436,7 @@ def run(ctx):
     rep.trusted_base = [
         "CPython ast", "int.from_bytes / to_bytes semantics", "CPython re._parser (parse tree of the x64 URI pattern; nothing is matched)",
         "constant folder for constant expressions (string module constants, re flags)", "csverif.absint (SymPoly normal form, Itv)",
-        "lemmas L1-L29 of the rules/c20.py docstring (length algebra, floor/ceiling division, known-bits facts for a byte, regex anchor/class semantics incl. `$` before a final newline, powers of 256 and the two's complement range, signed / byte-order dependence of from_bytes, key phase of a repeating-key XOR, results independent of the request URI)",
+        "lemmas L1-L30 of the rules/c20.py docstring (length algebra, floor/ceiling division, known-bits facts for a byte, regex anchor/class semantics incl. `$` before a final newline, powers of 256 and the two's complement range, signed / byte-order dependence of from_bytes, key phase of a repeating-key XOR, results independent of the request URI, checksum8 blind to an appended '/')",
     ]
     from csverif import AnalysisError
 
@@ -3507,6 +3627,202 @@ def _uri_arg_kind(arg, uri):
     return "unknown"
 
 
+_TABLE_MUTATORS = _MUTATORS | {"append", "extend", "__setitem__", "__delitem__"}
+
+
+def _const_table(ctx, f, e):
+    """Value of a constant container expression of the analysed code (device 6): a literal, or a module-level constant -
+    resolved in the module the name stems from - that no module of the package rebinds, stores into or calls a mutator
+    on.  None when it is not such a constant."""
+    node = e
+    if isinstance(e, (ast.Name, ast.Attribute)):
+        sym = _lookup(ctx, f, e)
+        if sym is None or sym.kind != "const" or (isinstance(e, ast.Name) and e.id in params(f.node) and getattr(e, "_home", None) is None):
+            return None
+        m = ctx.repo.modules.get(sym.module)
+        node = m.consts.get(sym.name) if m else None
+        if node is None:
+            return None
+        binds = 0
+        for m2 in ctx.repo.modules.values():
+            for n in ast.walk(m2.tree):
+                if isinstance(n, ast.Name) and n.id == sym.name and isinstance(n.ctx, (ast.Store, ast.Del)):
+                    binds += 1 if m2.name == sym.module else 0
+                elif isinstance(n, ast.Global) and sym.name in n.names:
+                    return None
+                elif isinstance(n, (ast.Subscript, ast.Attribute)) and isinstance(n.ctx, (ast.Store, ast.Del)) and (dotted(n.value) or "").split(".")[-1] == sym.name:
+                    return None
+                elif isinstance(n, ast.Attribute) and isinstance(n.ctx, (ast.Store, ast.Del)) and n.attr == sym.name:
+                    return None
+                elif isinstance(n, ast.Call) and isinstance(n.func, ast.Attribute) and n.func.attr in _TABLE_MUTATORS and (dotted(n.func.value) or "").split(".")[-1] == sym.name:
+                    return None
+        if binds != 1:
+            return None
+    try:
+        return _fold(node)
+    except _NoEval:
+        return None
+
+
+def _ints_set(vals):
+    """Interval set of a collection of constants that are all plain integers; None otherwise."""
+    vals = list(vals)
+    if not all(type(v) is int for v in vals):
+        return None
+    return _iv_and(_iv_norm([(v, v) for v in vals]), [_C8_DOM])
+
+
+def _c8_region(ctx, f, a):
+    """Interval set of the values of the atom `$c8` (a checksum8 value, L11: [0, 255]) for which the test `a` - a term over
+    `$c8` and constants of the analysed code only - holds; None when `a` is outside the recognised forms:
+      * a comparison of the atom with an integer constant (polynomial normal form, mirrored spellings);
+      * membership of the atom in a constant collection (device 6; a dict: its keys);
+      * ONE lookup of the atom in a constant table, `T.get($c8[, d])` / `T[$c8]`, inside a constant test: case analysis
+        over the table's own keys plus the case "any other value" (device 5), the test folded per case (device 6);
+        `T[$c8]` raises for the other values."""
+    t = _atom_set(a, "$c8", _C8_DOM)
+    if t is not None:
+        return t
+    if isinstance(a, ast.Compare) and len(a.ops) == 1 and isinstance(a.ops[0], (ast.In, ast.NotIn)) and isinstance(a.left, ast.Name) and a.left.id == "$c8":
+        coll = _const_table(ctx, f, a.comparators[0])
+        if not isinstance(coll, (dict, set, frozenset, list, tuple, range)):
+            return None
+        t = _ints_set(coll)
+        if t is None:
+            return None
+        return t if isinstance(a.ops[0], ast.In) else _iv_not(t, _C8_DOM)
+    found = []
+    for n in ast.walk(a):
+        key = dflt = None
+        if isinstance(n, ast.Call) and isinstance(n.func, ast.Attribute) and n.func.attr == "get" and 1 <= len(n.args) <= 2 and not n.keywords:
+            tab, key, kind = n.func.value, n.args[0], "get"
+            dflt = n.args[1] if len(n.args) == 2 else ast.Constant(value=None)
+        elif isinstance(n, ast.Subscript) and not isinstance(n.slice, ast.Slice):
+            tab, key, kind = n.value, n.slice, "item"
+        if key is not None and isinstance(key, ast.Name) and key.id == "$c8":
+            found.append((n, tab, kind, dflt))
+    if len(found) != 1:
+        return None
+    n, tab, kind, dflt = found[0]
+    table = _const_table(ctx, f, tab)
+    if not isinstance(table, dict) or _ints_set(table) is None:
+        return None
+    marker = ast.Name(id="$cell", ctx=ast.Load())
+    test = _replace_node(a, n, marker)
+    if "$c8" in _names(test):
+        return None
+
+    def holds(v):
+        try:
+            return bool(_fold(test, {"$cell": v}))
+        except _NoEval:
+            return None
+
+    out = []
+    for k, v in table.items():
+        h = holds(v)
+        if h is None:
+            return None
+        if h and _C8_DOM[0] <= k <= _C8_DOM[1]:
+            out.append((k, k))
+    if kind == "get":
+        try:
+            h = holds(_fold(dflt))
+        except _NoEval:
+            h = None
+        if h is None:
+            return None
+        if h:
+            out.extend(_iv_not(_ints_set(table), _C8_DOM))
+    return _iv_norm(out)
+
+
+def _gate_verdict(ctx, f, conds, uri, req, neg86):
+    """Judge the conditions of one path of find_staged_beacon that reaches the extraction with a known request and
+    without a positive is_stager_x86/x64 call, when they constrain the request URI through its checksum8 / its shape
+    themselves (a table-driven or re-spelled gate).  -> (True, text) the conditions imply a stager classification;
+    (False, text) they admit a URI that neither classifier accepts; (None, text) outside the recognised forms.
+    `neg86`: the path also carries a failed is_stager_x86(uri) (checksum8 != 92 by R3)."""
+
+    class U(ast.NodeTransformer):
+        def visit(self, n):
+            if isinstance(n, ast.expr) and _uri_arg_kind(n, uri) == "exact":
+                return ast.Name(id="$uri", ctx=ast.Load())
+            return self.generic_visit(n)
+
+    class C(ast.NodeTransformer):
+        def visit_Call(self, n):
+            self.generic_visit(n)
+            sym = _lookup(ctx, f, n.func)
+            if sym is not None and sym.kind in ("func", "partial") and sym.fq == "utils.checksum8" and len(n.args) == 1 and not n.keywords and isinstance(n.args[0], ast.Name) and n.args[0].id == "$uri":
+                return ast.Name(id="$c8", ctx=ast.Load())
+            return n
+
+    region = [_C8_DOM]
+    if neg86:
+        region = _iv_not([(92, 92)], _C8_DOM)
+    shapes, rx, seen_c8, other = set(), False, False, []
+    for a, pol in conds:
+        if not _has_attr_chain(a, req):
+            continue
+        a2 = C().visit(U().visit(copy.deepcopy(a)))
+        names = _names(a2)
+        if _has_attr_chain(a2, req):
+            other.append(a)
+        elif "$c8" in names and "$uri" not in names:
+            t = _c8_region(ctx, f, a2)
+            if t is None:
+                other.append(a)
+            else:
+                seen_c8 = True
+                region = _iv_and(region, t if pol else _iv_not(t, _C8_DOM))
+        elif "$uri" in names and "$c8" not in names:
+            # a shape test of the URI: the x64 regular expression (judged like the classifier's own, R3) or string predicates
+            call, none_pol = a2, pol
+            if isinstance(a2, ast.Compare) and len(a2.ops) == 1 and isinstance(a2.comparators[0], ast.Constant) and a2.comparators[0].value is None and isinstance(a2.ops[0], (ast.Is, ast.IsNot, ast.Eq, ast.NotEq)):
+                call, none_pol = a2.left, (not pol if isinstance(a2.ops[0], (ast.Is, ast.Eq)) else pol)
+            home = ctx.repo.modules.get(_home_of(f, call.func.value if isinstance(call, ast.Call) and isinstance(call.func, ast.Attribute) else call))
+
+            class _Shim:
+                module = home if home is not None else f.module
+
+            located = [x for x in _regex_calls(ctx, _Shim, call, "$uri") if x[0] is call]
+            if located:
+                _n, kind, pat, fl = located[0]
+                good = pat is not None and fl is not None and _x64_language_ok(kind, pat, fl)[0] is True and _whole_string(kind, pat, fl or 0)[0] is True
+                if good and none_pol:
+                    rx = True
+                elif not (good and not none_pol):
+                    other.append(a)
+                continue
+            sh = _shape_atom(a2, "$uri")
+            if sh in ("len5", "slash", "alnum", "ascii") and pol:
+                shapes.add(sh)
+            else:
+                other.append(a)
+        else:
+            other.append(a)
+    if not seen_c8:
+        return None, "no test of the checksum8 of the request URI"
+    if other:
+        return None, f"a condition on the request the rule does not interpret: `{src(other[0])[:80]}`"
+    if not region:
+        return True, "infeasible"
+    shape_ok = rx or {"len5", "slash", "alnum", "ascii"} <= shapes
+    if shapes and not shape_ok:
+        return None, f"string predicates {sorted(shapes)} on the request URI that do not add up to the x64 shape"
+    allowed = [(92, 93)] if shape_ok else [(92, 92)]
+    extra = _iv_and(region, _iv_not(allowed, _C8_DOM))
+    if not extra:
+        return True, f"the path conditions confine checksum8(request uri) to {_iv_text(region)}" + (" and establish the shape '/' + four ASCII alphanumerics" if shape_ok and _iv_and(region, [(93, 93)]) else "")
+    rest = _iv_and(extra, _iv_not([(93, 93)], _C8_DOM))
+    if rest:
+        return False, (f"the path conditions admit checksum8(request uri) in {_iv_text(region)}: a URI '/' + four alphanumerics with checksum8 {rest[0][0]} exists (L28) and neither classifier accepts it "
+                       f"(is_stager_x86 <=> 92, is_stager_x64 <=> 93 and the shape)")
+    return False, (f"the path conditions admit checksum8(request uri) in {_iv_text(region)} and read the request URI through checksum8 only: checksum8 == 93 is only one of the two conjuncts of is_stager_x64 - "
+                   "u + '/' has the checksum8 of a URI u of four or more characters and is not '/' + four alphanumerics (L30), so a known request that neither classifier accepts reaches the extraction")
+
+
 def r5(ctx):
     f = ctx.repo.func("pcap.BeaconCapture.find_staged_beacon")
     ps = params(f.node)
@@ -3522,8 +3838,7 @@ def r5(ctx):
         out = []
         for n in ast.walk(e):
             if isinstance(n, ast.Call):
-                d = dotted(n.func)
-                s = ctx.rs.lookup_dotted(f.module.name, d) if d else None
+                s = _lookup(ctx, f, n.func)
                 if s is not None and s.kind == "func" and s.fq.startswith("beacon.BeaconConfig.from_"):
                     out.append(n)
         return out
@@ -3619,7 +3934,7 @@ def r5(ctx):
                             if d and d.startswith(gps[0] + ".") and d.count(".") == 1:
                                 holds.setdefault(f"{self_name}.{d.split('.')[1]}", f"{g.qualname} stores what {me}() returned in `{d}`")
 
-    bad, undec, exits = [], [], []
+    bad, undec, exits, semantic = [], [], [], []
     stale, stale_undec, none_paths = [], [], 0
     nsink = 0
     args = []
@@ -3629,6 +3944,7 @@ def r5(ctx):
         tests = {}
         opaque = []
         transformed = []
+        free = []  # conditions that are neither tests of the request being known nor classifier calls on its URI
         for a, pol in s.conds:
             r = request_test(a, pol)
             if r is not None:
@@ -3636,10 +3952,11 @@ def r5(ctx):
                 continue
             fq = None
             if isinstance(a, ast.Call):
-                d = dotted(a.func)
-                sym = ctx.rs.lookup_dotted(f.module.name, d) if d else None
+                sym = _lookup(ctx, f, a.func)
                 fq = sym.fq if sym is not None and sym.kind in ("func", "partial") else None
             kind = _uri_arg_kind(a.args[0], uri) if fq in ("utils.is_stager_x86", "utils.is_stager_x64") and len(a.args) == 1 else None
+            if kind != "exact":
+                free.append((a, pol))
             if kind == "exact":
                 tests[fq] = pol if fq not in tests else (tests[fq] or pol)
             elif kind == "transformed":
@@ -3687,17 +4004,25 @@ def r5(ctx):
         elif negative or not opaque:
             bad.append(("the request URI failed both stager classifiers: " if negative else "no stager test of the request URI: ") + why)
         else:
-            undec.append(f"guarded by `{src(opaque[0])[:80]}`, not a direct is_stager_x86/x64 call: " + why)
+            # not a classifier call: a gate that tests the checksum8 / the shape of the request URI itself (table-driven,
+            # re-spelled) is judged by what its conditions admit (devices 4-6, L28/L30)
+            ok, text = _gate_verdict(ctx, f, free, uri, req, tests.get("utils.is_stager_x86") is False)
+            if ok is True:
+                semantic.append(text)
+            elif ok is False:
+                bad.append(f"{text}: " + why)
+            else:
+                undec.append(f"guarded by `{src(opaque[0])[:80]}`, not a direct is_stager_x86/x64 call ({text}): " + why)
     total_sinks = sum(1 for s in states for _st, v in s.events for _c in sinks(v))
     if total_sinks == 0:
         ctx.undecided("R5", "DOM", f, TEXT, "no BeaconConfig.from_* extraction call found on any path")
         return
     if bad:
-        ctx.ob("R5", "DOM", f, TEXT, False, f"with a known request the extraction must only be reachable after is_stager_x86/x64(request uri) was true: {bad[0][:300]}")
+        ctx.ob("R5", "DOM", f, TEXT, False, f"with a known request the extraction must only be reachable after is_stager_x86/x64(request uri) was true: {bad[0][:640]}")
     elif undec:
         ctx.undecided("R5", "DOM", f, TEXT, undec[0][:300])
     else:
-        ctx.ob("R5", "DOM", f, TEXT, True, f"every path with a known request that reaches the extraction ({nsink} path(s)) carries a positive is_stager_x86/x64 test of the request URI")
+        ctx.ob("R5", "DOM", f, TEXT, True, f"every path with a known request that reaches the extraction ({nsink} path(s)) carries a positive is_stager_x86/x64 test of the request URI" + (f", or conditions on its checksum8 / shape that imply one ({len(semantic)} path(s): {semantic[0][:160]})" if semantic else ""))
     STALE = "no stored extraction result is returned around the stager gate"
     if stale:
         ctx.ob("R5", "TAINT", f, STALE, False, stale[0][:420])
